@@ -116,6 +116,16 @@ def Client.expects {D : Type} : Client D → Msg D → Bool
   | .waitingAck _ _ _ _ _ _, .serverAck _ => true
   | _, _ => false
 
+/-- The messages a state goes on with: expected kind and, where a digest is carried, the
+right digest. Everything else is a violation. -/
+def Server.accepts {D : Type} [DecidableEq D] : Server D → Msg D → Bool
+  | .waitingReply _ e, .clientChallenge _ dg => decide (e = dg)
+  | s, m => s.expects m
+
+def Client.accepts {D : Type} [DecidableEq D] : Client D → Msg D → Bool
+  | .waitingAck _ _ _ _ _ e, .serverAck dg => decide (e = dg)
+  | c, m => c.expects m
+
 /-- State invariant: the digest a waiting state expects is the digest of the challenge it holds. -/
 def Server.wf {C D : Type} (H : C → Nat → D) (cookie : C) : Server D → Prop
   | .waitingReply c d => d = H cookie c
